@@ -97,6 +97,11 @@ def case_program(col, p):
                     PR.run(prog, xx)                       # fresh event log (phi_1D resets it)
                     g_out = dadi.Demes.output(Nref=Nref, generation_time=gt)
                     live_ids = list(dadi.Demes.cache[-1].deme_ids)
+                    # exporting is a read of the event log: doing it again (other units, then the same) gives the same graph
+                    dadi.Demes.output(Nref=3 * Nref, generation_time=(gt or 1.0) * 2)
+                    g_again = dadi.Demes.output(Nref=Nref, generation_time=gt)
+                    if g_again.asdict() != g_out.asdict():
+                        col.violation('C16:export:not_repeatable', dict(info, Nref=Nref, generation_time=gt), 'a second export of the same event log differs from the first')
                     back = sfs(g_out, live_ids, ns, pts)
                 except Exception as e:
                     site = export_site(prog)
@@ -342,6 +347,9 @@ def case_size_cut(col, p):
         b.add_pulse(sources=['B'], dest='C', proportions=[0.25], time=gen(tE))
     elif event == 'migration':
         b.add_migration(demes=['B', 'C'], rate=1.5 / (2 * N0), start_time=gen(tE), end_time=0)
+    elif event == 'migration_window':
+        # one-way migration that starts and stops at times when nothing else happens in the graph
+        b.add_migration(source='B', dest='C', rate=1.5 / (2 * N0), start_time=gen(tE), end_time=gen(0.02))
     g = b.resolve()
     info = dict(p, kind='size_cut')
     try:
@@ -369,6 +377,10 @@ def case_size_cut(col, p):
             phi = I.three_pops(phi, xx, cuts[3], nu1=f(t0), nu2=0.8, nu3=0.5)
         elif event == 'migration':
             phi = I.three_pops(phi, xx, cuts[3], nu1=f(t0), nu2=0.8, nu3=0.5, m23=1.5, m32=1.5)
+        elif event == 'migration_window':
+            # migrants move from B (population 2) into C (population 3): dadi's m32 is the rate into 3 from 2
+            phi = I.three_pops(phi, xx, cuts[3] - 0.02, nu1=f(t0), nu2=0.8, nu3=0.5, m32=1.5)
+            phi = I.three_pops(phi, xx, 0.02, nu1=f(t0 + cuts[3] - 0.02), nu2=0.8, nu3=0.5)
         return np.asarray(dadi.Spectrum.from_phi(phi, [2, 2, 2], [xx, xx, xx], mask_corners=False).data)
     ref = native()
     err = relerr(got, ref)
@@ -517,7 +529,7 @@ def run(ctx):
                     for pre in (False, True):
                         cases.append({'kind': 'ancient', 'function': fn, 'frac': frac, 'sample_other': other, 'mig': mig, 'pre_epoch': pre})
     for fn in ('constant', 'exponential', 'linear'):
-        for ev in ('none', 'pulse', 'migration'):
+        for ev in ('none', 'pulse', 'migration', 'migration_window'):
             cases.append({'kind': 'size_cut', 'function': fn, 'third_event': ev})
     yamls = [('bottleneck.yaml', ['our_population'], [5], 12), ('two_epoch.yaml', ['deme0'], [6], 12), ('zigzag.yaml', ['generic'], [6], 12),
              ('gutenkunst_ooa.yaml', ['YRI', 'CEU', 'CHB'], [3, 2, 2], 10), ('linear_size_function_example.yaml', ['pop_1', 'pop_2'], [3, 4], 12),
